@@ -30,9 +30,27 @@ pub fn convert(f: &f::Layout) -> Result<s::Layout, String> {
     adjust_repeats(&mut res, &from_table, &alias_mappings, fm)?;
   }
   
+  for sm in &res {
+    if has_repeated_key(&sm.from) {
+      return Err(format!("Mapping from {:?} to {:?} lists the same key twice in `from`", sm.from, sm.to));
+    }
+    if has_repeated_key(&sm.to) {
+      return Err(format!("Mapping from {:?} to {:?} lists the same key twice in `to`", sm.from, sm.to));
+    }
+  }
+  
   Ok(s::Layout {
     mappings: res
   })
+}
+
+fn has_repeated_key(keys: &Vec<KeyCode>) -> bool {
+  for i in 0 .. keys.len() {
+    if keys[i+1 ..].contains(&keys[i]) {
+      return true;
+    }
+  }
+  false
 }
 
 fn adjust_repeats<'a>(res: &mut Vec<s::Mapping>, from_table: &HashMap<FromSet, Vec<usize>>, alias_mappings: &'a HashMap<String, Vec<&'a f::AliasMapping>>, fm: &f::Mapping) -> Result<(), String> {
